@@ -64,7 +64,13 @@ func c13CallbackChain(c *Ctx) {
 	exchS, ok2 := step1("Exchange", "(*"+oauthPkg+".Config).Exchange")
 	verifyS, ok3 := step1("Verify", "(*"+oidcPkg+".IDTokenVerifier).Verify")
 	claimsS, ok4 := step1("IDToken.Claims", "(*"+oidcPkg+".IDToken).Claims")
-	unmS, ok5 := step1("json.Unmarshal", "encoding/json.Unmarshal")
+	// the claims may be decoded into raw JSON and unmarshalled (two steps), or straight into the map
+	directClaims := len(c.findSteps(fn, "encoding/json.Unmarshal")) == 0
+	var unmS stepRef
+	ok5 := true
+	if !directClaims {
+		unmS, ok5 = step1("json.Unmarshal", "encoding/json.Unmarshal")
+	}
 	findS, ok6 := step1("findUsernameInClaims", webPkgPath+".findUsernameInClaims")
 	saveS, ok7 := step1("SaveSessionIdentity", webPkgPath+".SaveSessionIdentity")
 	if !(ok1 && ok2 && ok3 && ok4 && ok5 && ok6 && ok7) {
@@ -75,6 +81,9 @@ func c13CallbackChain(c *Ctx) {
 		return
 	}
 	get, exch, verify, claims, unm, find, save := getS.call, exchS.call, verifyS.call, claimsS.call, unmS.call, findS.call, saveS.call
+	if directClaims {
+		unm, unmS = claims, claimsS // the Claims call itself fills the map
+	}
 	hField := func(st stepRef, v ssa.Value, field string) bool {
 		root, path := c.fieldPathIn(st, v)
 		return root == ssa.Value(fn.Params[0]) && len(path) >= 1 && path[0] == field
@@ -109,7 +118,13 @@ func c13CallbackChain(c *Ctx) {
 	}
 	claimsDst := strip(arg(claims, 0))
 	srcOK := false
-	{
+	if directClaims {
+		al, isAl := claimsDst.(*ssa.Alloc)
+		if isAl {
+			_, isMap := al.Type().Underlying().(*types.Pointer).Elem().Underlying().(*types.Map)
+			srcOK = isMap
+		}
+	} else {
 		v := strip(arg(unm, 0))
 		for i := 0; i < 4; i++ {
 			a, ok := loadAddr(v)
@@ -124,13 +139,16 @@ func c13CallbackChain(c *Ctx) {
 		}
 	}
 	dataAlloc, _ := strip(arg(unm, 1)).(*ssa.Alloc)
+	if directClaims {
+		dataAlloc, _ = claimsDst.(*ssa.Alloc)
+	}
 	findOK := false
 	if dataAlloc != nil {
 		fv := strip(arg(find, 0))
 		if a, ok := loadAddr(fv); !ok || a != ssa.Value(dataAlloc) {
 			fv = strip(c.downValue(fv, 0)) // the claims map handed back by the helper that decoded it
 		}
-		if a, ok := loadAddr(fv); ok && a == ssa.Value(dataAlloc) && c.before(fn, unmS, find) && (claims.Parent() != unm.Parent() || dominatesInstr(claims, unm)) {
+		if a, ok := loadAddr(fv); ok && a == ssa.Value(dataAlloc) && c.before(fn, unmS, find) && (directClaims || claims.Parent() != unm.Parent() || dominatesInstr(claims, unm)) {
 			findOK = true
 		}
 	}
@@ -147,7 +165,7 @@ func c13CallbackChain(c *Ctx) {
 		{"exchange-ok", exchS, GErrNil(resultOf(exch, 1))},
 		{"verify-ok", verifyS, GErrNil(resultOf(verify, 1))},
 		{"claims-ok", claimsS, GErrNil(claims)},
-		{"json-ok", unmS, GErrNil(unm)},
+		{"json-ok", unmS, GErrNil(unm)}, // (the Claims call again when the claims are decoded in one step)
 		{"username-nonempty", findS, GNeq(isVal(userName), func(v ssa.Value) bool { s, ok := constString(v); return ok && s == "" })},
 	}
 	if idTok != nil {
